@@ -22,7 +22,7 @@ COLLS = {'A': {'bs': 'B'}, 'B': {'cs': 'C'}, 'C': {'bs': 'B'}}
 REFS = {'B': {'a': 'A'}}
 
 INTS = [-2, -1, 0, 1, 2, 3, 7]
-STRS = ['', 'a', 'ab', 'Ab', 'b', 'abc', 'x y', "it's", 'a%', 'a_b', 'é']
+STRS = ['', 'a', 'ab', 'Ab', 'b', 'abc', 'x y', "it's", 'a%', 'a_b', 'é', 'a!', 'a!b', '!%']
 
 
 class Unspecified(Exception):
@@ -167,6 +167,8 @@ def render(e):
         return '%s %s %s' % (render(e[2]), e[1], render(e[3]))
     if k == 'chain':       # a < b <= c
         return '%s %s %s %s %s' % (render(e[1]), e[2], render(e[3]), e[4], render(e[5]))
+    if k == 'tcmp':        # (a, b) <= (c, d): lexicographic comparison of tuples of non-null ints
+        return '(%s) %s (%s)' % (', '.join(render(x) for x in e[2]), e[1], ', '.join(render(x) for x in e[3]))
     if k == 'in':          # ['in', negated, expr, [const nodes]]
         return '%s %s (%s,)' % (render(e[2]), 'not in' if e[1] else 'in', ', '.join(render(c) for c in e[3]))
     if k == 'isnone':
@@ -376,6 +378,12 @@ def cond(e, env):
         return compare(e[1], ev(e[2], env), ev(e[3], env))
     if k == 'chain':
         return k_and(compare(e[2], ev(e[1], env), ev(e[3], env)), compare(e[4], ev(e[3], env), ev(e[5], env)))
+    if k == 'tcmp':
+        a = tuple(ev(x, env) for x in e[2])
+        b = tuple(ev(x, env) for x in e[3])
+        if None in a or None in b:
+            return None
+        return compare(e[1], a, b)
     if k == 'in':
         a = ev(e[2], env)
         res = False
@@ -741,6 +749,17 @@ def conditions(var, ent, depth, inner=False):
             lambda t: ['contains', t[0], ['const', t[1]], t[2]]),
         st.tuples(ints, st.sampled_from(INTS), st.sampled_from(INTS)).map(lambda t: ['between', t[0], ['const', t[1]], ['const', t[2]]]),
     ]
+    # needles that are not literals (parameter / column / expression): the LIKE pattern is escaped in SQL, not in Python
+    strs0 = value_exprs(var, ent, 'str', 0, allow_coll=False)
+    atoms.append(st.tuples(st.sampled_from(['startswith', 'endswith']), strs, strs0).map(lambda t: [t[0], t[1], t[2]]))
+    atoms.append(st.tuples(st.booleans(), strs0, strs).map(lambda t: ['contains', t[0], t[1], t[2]]))
+    # lexicographic comparison of tuples (non-null int elements only: Python raises for None, SQL gives unknown)
+    telem = st.one_of(st.sampled_from(['n', 'id']).map(lambda n: ['attr', var, n]), st.sampled_from(INTS).map(lambda v: ['const', v]),
+                      st.sampled_from(INTS).map(lambda v: ['param', 'pi_%s' % str(v).replace('-', 'm'), v]))
+    tcmp = st.integers(2, 3).flatmap(lambda n: st.tuples(
+        cmpop, st.lists(telem, min_size=n, max_size=n), st.lists(telem, min_size=n, max_size=n))).map(
+        lambda t: ['tcmp', t[0], t[1], t[2]])
+    atoms.extend([tcmp, tcmp, atoms[-1], atoms[-2]])
     # negated forms get their own atoms (negation of comparisons / truth tests has dedicated translation code)
     attr_int = st.sampled_from([n for n, t in ENT_ATTRS[ent].items() if t in ('int', 'oint')]).map(lambda n: ['attr', var, n])
     attr_str = st.sampled_from([n for n, t in ENT_ATTRS[ent].items() if t == 'str']).map(lambda n: ['attr', var, n])
